@@ -255,3 +255,32 @@ func ExpandStack(name string) string {
 	}
 	return strings.Join(lines, "\n")
 }
+
+// FindRecord walks the bucket chain of name in data (bounded) and returns the
+// record offset, or 0 when the name is not reachable. It tolerates a file that
+// is being written concurrently: anything out of bounds ends the walk.
+func FindRecord(data []byte, name string) uint32 {
+	if len(data) < PageSize {
+		return 0
+	}
+	np := roundUp(uint32(len(Prefix)), 4)
+	hdrLen := le32(data, np)
+	if hdrLen < np+4 || int(hdrLen)+4+4*NumHash > len(data) {
+		return 0
+	}
+	off := le32(data, hdrLen+4+4*Hash(name))
+	for steps := 0; off != 0 && steps <= len(data)/RecordUnit; steps++ {
+		if int64(off)+16 > int64(len(data)) {
+			return 0
+		}
+		nlen := le32(data, off+8) & 0x00ffffff
+		if int64(off)+16+int64(nlen) > int64(len(data)) {
+			return 0
+		}
+		if string(data[off+16:off+16+nlen]) == name {
+			return off
+		}
+		off = le32(data, off+12)
+	}
+	return 0
+}
